@@ -212,8 +212,24 @@ def scaled_layer(ck, n_cases):
         spec = next((s for s in specs if s[0] == name), None)
         base = {"kind": "scaled", "dim": name, "elements": k, "n": n, "spec": spec,
                 "raw": np.asarray(view.array).tolist(), "hdr_scales": las.header.scales.tolist(), "hdr_offsets": las.header.offsets.tolist()}
-        kind = ck.rng.choice(["arith", "reduce", "method", "index", "index_elem"] if k > 1 else ["arith", "reduce", "method", "index"])
-        if kind == "arith":
+        kind = ck.rng.choice(["arith", "arith_views", "reduce", "method", "index", "index_elem"] if k > 1 else ["arith", "arith_views", "reduce", "method", "index"])
+        if kind == "arith_views":
+            # view (op) view: coordinates against each other (stored integers near the int32 ends), a scaled extra dimension
+            # against itself or reversed; numpy on the materialised values is the reference
+            opn = ck.rng.choice(["+", "-", "-", "*"])
+            if name in ("x", "y", "z"):
+                other_name = ck.rng.choice(["x", "y", "z"])
+                for d in {name.upper(), other_name.upper()}:
+                    las.points.array[d] = np.array([ck.rng.choice([2**31 - 1, -2**31, 1500000000, -1200000000, ck.rng.randrange(-10**6, 10**6)]) for _ in range(n)], dtype="i4")
+                view = las[name]
+                plain = np.array(view)
+                v2, p2 = las[other_name], np.array(las[other_name])
+            else:
+                other_name = name
+                v2, p2 = las[name][::-1], plain[::-1]
+            compare(ck, f"{name}({k}) {opn} {other_name}", lambda: OPS[opn](view, v2), lambda: OPS[opn](plain, p2),
+                    dict(base, expr=f"view {opn} view({other_name})", raw=np.asarray(view.array).tolist(), finding_key="C10:scaled:arith_views"))
+        elif kind == "arith":
             opn = ck.rng.choice(["+", "-", "*", "/"])
             c = ck.rng.choice([2, 0.5, -3.25, 10, np.float64(1.5), np.int32(7)])
             compare(ck, f"{name}({k}) {opn} {c!r}", lambda: OPS[opn](view, c), lambda: OPS[opn](plain, c), dict(base, expr=f"view {opn} {c!r}", finding_key="C10:scaled:arith"))
